@@ -523,6 +523,21 @@ def c17_vmapped_builder_nested_index():
     assert bool(b.flag) and float(b.value) == float(a.value), (a, b)
     return float(b.value)
 
+@probe
+def c23_switch_of_masks_eager():
+    """open: eager call with Python-bool mask flags raises, the jitted call works"""
+    import genjax
+    @gen
+    def b1(x):
+        return normal(x, 1.0) @ "x"
+    @gen
+    def b2(x):
+        return normal(x, 2.0) @ "x"
+    sw = genjax.switch(b1.mask(), b2.mask())
+    args = (jnp.array(1), (True, 0.1), (True, 0.2))
+    tr = sw.simulate(key, args)
+    return float(tr.get_score())
+
 if __name__ == "__main__":
     names = sys.argv[1:] or list(P)
     bad = 0
